@@ -173,7 +173,7 @@ func parseExpr(src string) (*Expr, error) {
 }
 
 func (p *parser) peek() ltoken { return p.toks[p.p] }
-func (p *parser) next() ltoken  { t := p.toks[p.p]; p.p++; return t }
+func (p *parser) next() ltoken { t := p.toks[p.p]; p.p++; return t }
 func (p *parser) isOp(s string) bool {
 	t := p.peek()
 	return t.k == tOp && t.s == s
